@@ -347,7 +347,7 @@ def run(pid, tier, seed):
             return proto.run_harness(exe, lines, timeout=900)
         # integrality marks cannot be set through the API: write the problem as LP text, add an Integer section (and explicit
         # bounds for the integer columns, whose default would otherwise be binary), read that file, and start from there
-        nb = len(build_lines(0, lp, cn, rn))
+        nb = lines.index("dumpapi 0")          # the build part of this job (rows first or columns first)
         t0 = proto.run_harness(exe, lines[:nb] + ["write 0 LP " + hx("i.lp"), "getfile " + hx("i.lp")], timeout=300)
         fb = proto.get(t0[-1][1], "file") if len(t0) == nb + 2 else None
         if not fb or fb[0] in ("missing", "-"):
@@ -360,7 +360,10 @@ def run(pid, tier, seed):
         elif extra:
             text = text.replace("\nEnd", "\nBounds\n" + extra + "End", 1)
         text = text.replace("\nEnd", "\nInteger\n" + "".join(" %s\n" % cn[j] for j in ints) + "End", 1)
-        l2 = ["putfile %s %s" % (hx("i2.lp"), hx(text)), "read 0 LP " + hx("i2.lp")] + lines[nb:]
+        # half of these problems get one more column through the API after they were read from the file (what a file reader attaches to
+        # a problem - integrality marks, SOS membership - has to follow the columns)
+        grow = ["addcol 0 %s 1 0 inf 1 0 1" % hx("zq_added")] if (lp.rows and "zq_added" not in cn and "zq_added" not in rn and r.chance(0.5)) else []
+        l2 = ["putfile %s %s" % (hx("i2.lp"), hx(text)), "read 0 LP " + hx("i2.lp")] + grow + lines[nb:]
         tr = proto.run_harness(exe, l2, timeout=900)
         tr.int_cols = [cn[j] for j in ints]
         job[3][:] = l2
